@@ -243,7 +243,7 @@ pub fn run_c02(tier: Tier) -> i32 {
     let mut exps = vec![];
     match tier {
         Tier::Quick => {
-            exps.push(Exp::new("base", cfg_with(true, true, 250_000), alpha.clone(), std_seeds(&tier), 3));
+            exps.push(Exp::new("base", cfg_with(true, true, 250_000), alpha.clone(), std_seeds(&tier), 4));
             exps.push(Exp::new("base", cfg_with(false, false, 0), alpha.clone(), std_seeds(&tier), 3));
             exps.push(Exp::new("partial-liquidation band", cfg_liq(true, false, 250_000), liq_alpha(false), liq_seeds(), 3));
             let mut z = cfg_liq(false, false, 250_000);
@@ -304,7 +304,7 @@ pub fn run_c03(tier: Tier) -> i32 {
     match tier {
         Tier::Quick => {
             exps.push(Exp::new("base", cfg_with(true, true, 0), alpha.clone(), std_seeds(&tier), 3));
-            exps.push(Exp::new("base", cfg_with(false, true, 250_000), alpha.clone(), std_seeds(&tier), 3));
+            exps.push(Exp::new("base", cfg_with(false, true, 250_000), alpha.clone(), std_seeds(&tier), 4));
             exps.push(Exp::new("liquidation band", cfg_liq(true, true, 250_000), liq_alpha(false), liq_seeds(), 3));
             exps.push(Exp::new("liquidation band", cfg_liq(false, false, 0), liq_alpha(false), liq_seeds(), 3));
         }
@@ -433,8 +433,11 @@ pub fn run_c04(tier: Tier) -> i32 {
     let mut exps = vec![];
     match tier {
         Tier::Quick => {
-            exps.push(Exp::new("base", cfg_with(true, true, 0), alpha.clone(), seeds.clone(), 3));
+            exps.push(Exp::new("base", cfg_with(true, true, 0), alpha.clone(), seeds.clone(), 4));
             exps.push(Exp::new("base", cfg_with(false, false, 0), alpha.clone(), seeds.clone(), 3));
+            let mut c = cfg_with(true, true, 250_000);
+            c.fluct = 50_000;
+            exps.push(Exp::new("partial-close", c, alpha.clone(), seeds.clone(), 3));
         }
         Tier::Thorough => {
             for cw20 in [true, false] {
@@ -531,8 +534,8 @@ pub fn run_c05(tier: Tier) -> i32 {
     };
     match tier {
         Tier::Quick => {
-            push(mk(true, 100_000, 62_500, false), 3);
-            push(mk(false, 300_000, 62_500, true), 2);
+            push(mk(true, 100_000, 62_500, false), 4);
+            push(mk(false, 300_000, 62_500, true), 3);
         }
         Tier::Thorough => {
             for cw20 in [true, false] {
@@ -575,6 +578,19 @@ fn liq_alpha(rel: bool) -> Vec<Act> {
         al.rel_prices = vec![(1, 1), (10, 11)];
     }
     al.acts()
+}
+
+/// a liquidatable position reached with moves of at most ~4.6% per block (valid under a 5% price band)
+fn seed_band_liquidatable() -> Vec<Act> {
+    vec![
+        Act::open("alice", true, 2 * D, 10 * D),
+        Act::blk(15),
+        Act::open("bob", false, 2_400_000, 10 * D),
+        Act::blk(15),
+        Act::open("bob", false, 2_300_000, 10 * D),
+        Act::blk(1200),
+        px_at_spot(),
+    ]
 }
 
 fn liq_seeds() -> Vec<Vec<Act>> {
@@ -684,7 +700,7 @@ pub fn run_c07(tier: Tier) -> i32 {
     let mut run = Run::new("C07", tier.clone());
     run.rule = "every sequence over the alphabet up to the depth bound from seeds with under-margined positions (incl. deeply negative equity and a drained vault); in every reached state every Liquidate(by, trader) of the alphabet is attempted; non-trivial = an attempt on a position whose reference ratio is below maintenance".into();
     run.nontrivial = vec!["c07:liquidation-attempts-on-undermargined".into()];
-    run.assumptions.push("precondition 'not already outside the per-block price band' is made trivially true by fluctuation limit 0 in these worlds".into());
+    run.assumptions.push("the price-band precondition is evaluated by the harness from the vAMM's raw reserve snapshots (previous block's closing price x (1 +- limit)); most worlds use limit 0, one uses 5%".into());
     let mk = |cw20: bool, plr: u128, real: bool| {
         let mut c = cfg_with(cw20, false, plr);
         c.real_feed = real;
@@ -698,9 +714,18 @@ pub fn run_c07(tier: Tier) -> i32 {
     let mut exps = vec![];
     match tier {
         Tier::Quick => {
-            exps.push(Exp::new("liveness", mk(true, 0, false), alpha.clone(), seeds.clone(), 2));
-            exps.push(Exp::new("liveness", mk(false, 250_000, false), alpha.clone(), seeds.clone(), 2));
+            exps.push(Exp::new("liveness", mk(true, 0, false), alpha.clone(), seeds.clone(), 3));
+            exps.push(Exp::new("liveness", mk(false, 250_000, false), alpha.clone(), seeds.clone(), 3));
             exps.push(Exp::new("liveness", mk(true, 0, true), alpha.clone(), seeds.clone(), 2));
+            let mut cb = mk(true, 0, false);
+            cb.fluct = 50_000;
+            let mut band_alpha = alpha.clone();
+            for t in ["alice", "bob"] {
+                for buy in [true, false] {
+                    band_alpha.push(Act::Open { t: t.into(), v: 0, buy, margin: 2 * D, lev: 10 * D, limit: 0 });
+                }
+            }
+            exps.push(Exp::new("liveness with price band", cb, band_alpha, vec![vec![], seed_band_liquidatable()], 3));
         }
         Tier::Thorough => {
             for cw20 in [true, false] {
@@ -710,6 +735,17 @@ pub fn run_c07(tier: Tier) -> i32 {
             }
             exps.push(Exp::new("liveness", mk(true, 0, true), alpha.clone(), seeds.clone(), 3));
             exps.push(Exp::new("liveness", mk(true, 250_000, true), alpha.clone(), seeds.clone(), 3));
+            for cw20 in [true, false] {
+                let mut cb = mk(cw20, 0, false);
+                cb.fluct = 50_000;
+                let mut band_alpha = alpha.clone();
+                for t in ["alice", "bob"] {
+                    for buy in [true, false] {
+                        band_alpha.push(Act::Open { t: t.into(), v: 0, buy, margin: 2 * D, lev: 10 * D, limit: 0 });
+                    }
+                }
+                exps.push(Exp::new("liveness with price band", cb, band_alpha, vec![vec![], seed_band_liquidatable()], 4));
+            }
         }
     }
     run_exps(&mut run, step_c07, exps, |_| {});
@@ -791,7 +827,7 @@ pub fn run_c08(tier: Tier) -> i32 {
     let mut exps = vec![];
     match tier {
         Tier::Quick => {
-            exps.push(Exp::new("fault sweep", cfg_with(true, true, 250_000), alpha.clone(), seeds.clone(), 2));
+            exps.push(Exp::new("fault sweep", cfg_liq(true, true, 250_000), alpha.clone(), seeds.clone(), 3));
             exps.push(Exp::new("fault sweep", cfg_with(false, true, 0), alpha.clone(), seeds.clone(), 2));
         }
         Tier::Thorough => {
@@ -835,6 +871,7 @@ pub fn run_c11(tier: Tier) -> i32 {
     match tier {
         Tier::Quick => {
             exps.push(Exp::new("funding", cfg_with(true, false, 0), alpha.clone(), seeds.clone(), 3));
+            exps.push(Exp::new("funding", cfg_with(false, true, 0), alpha.clone(), seeds.clone(), 3));
         }
         Tier::Thorough => {
             for cw20 in [true, false] {
@@ -987,7 +1024,7 @@ pub fn run_c16(tier: Tier) -> i32 {
     match tier {
         Tier::Quick => {
             push(0, 4);
-            push(250_000, 4);
+            push(250_000, 5);
         }
         Tier::Thorough => {
             push(0, 6);
@@ -1157,8 +1194,8 @@ pub fn run_c15(tier: Tier) -> i32 {
     };
     match tier {
         Tier::Quick => {
-            push(mk(50_000, 250_000), 4);
-            push(mk(20_000, D), 3);
+            push(mk(50_000, 250_000), 5);
+            push(mk(20_000, D), 4);
         }
         Tier::Thorough => {
             push(mk(50_000, 250_000), 6);
